@@ -17,7 +17,7 @@ NEVER modify /repo itself, and do not read anything under /verif (it contains th
 For EACH property below produce NMUT_PLACEHOLDER change(s) ("mutants") to lava's non-test source code that BREAK the property, each of which:
   * compiles, and the EXISTING tests of every package you touched still pass (run them; a mutant that fails an existing test is useless — note that some packages have slow or flaky tests: say which you ran);
   * is realistic — the kind of slip a developer could make in a refactor or "optimisation" (off-by-one, wrong comparison, dropped or reordered statement, missing unlock/rollback, wrong key, stale cache, lost update, skipped edge case) — small (1-15 changed lines), and NOT something ordinary use would expose at once: it must need something specific to manifest — a particular interleaving, a crash/fault/timeout at a particular point, a multi-step sequence of operations, an unusual input or parameter value, or two cooperating sites that each look fine alone. State precisely what it needs;
-  * comes with a DEMONSTRATION: a new Go test file (or small program) placed in the worktree that FAILS with the change and PASSES without it, deterministic (no sleeps-as-synchronisation races; if it needs an interleaving, force it with channels/hooks inside the test, or loop with clear bounds), running in < 60 s. Verify both directions yourself (stash the change / `git stash`, run, re-apply).
+  * comes with a DEMONSTRATION: a new Go test file (or small program) placed in the worktree that FAILS with the change and PASSES without it, deterministic (no sleeps-as-synchronisation races; if it needs an interleaving, force it with channels/hooks inside the test, or loop with clear bounds), running in < 60 s. Verify both directions yourself (save the change with `git diff > /tmp/mut-TAG-out/cur.patch`, undo it with `git apply -R`, run, re-apply with `git apply`; do NOT use `git stash`: the stash is shared by all worktrees of /repo and other people use them).
 If you produce two mutants for one property they must be in different functions and break different clauses of the property if it has several.
 
 Deliver, per mutant k (name it <ID>-{tag}-<k>, e.g. C27-{tag}-1), a directory /tmp/mut-{tag}-out/<name>/ containing:
